@@ -377,7 +377,7 @@ func TestC17ClientAdoption(t *testing.T) {
 			return e
 		}
 		round := func(t *rapid.T) {
-			kind := rapid.SampledFrom([]string{"list", "list", "list-bad-entry", "migration", "migration-bad-outer", "migration-bad-inner", "migration-other-device", "migration-same-gca"}).Draw(t, "replyKind")
+			kind := rapid.SampledFrom([]string{"list", "list", "list-bad-entry", "migration", "migration-bad-outer", "migration-blank-outer", "migration-bad-inner", "migration-other-device", "migration-same-gca"}).Draw(t, "replyKind")
 			base := ref.SyncReply{DeviceKey: w.dev.Pub}
 			for i := range base.Bitfield {
 				base.Bitfield[i] = 0xff
@@ -428,6 +428,14 @@ func TestC17ClientAdoption(t *testing.T) {
 					outer = rapid.SampledFrom([]ref.Key{ng, w.dev, keyFor("other-gca"), w.fakes[0].Key}).Draw(t, "outerSigner")
 				}
 				base.GCASig = ref.Sign(outer, m.SigningBytes())
+				if kind == "migration-blank-outer" { // no order signature at all (all zero), or a constant
+					base.GCASig = [64]byte{}
+					if rapid.IntRange(0, 3).Draw(t, "blankKind") == 0 {
+						for i := range base.GCASig {
+							base.GCASig[i] = 0xff
+						}
+					}
+				}
 				nontrivial = true
 			}
 			// every eligible server answers with the same content, signed by itself
